@@ -483,7 +483,11 @@ func runC05Session(t *testing.T, rec *vrec, sc *sessScenario, rng *vrng, valid b
 					}
 					for b := 0; b < r.between(1, 20); b++ {
 						maxLen := 1500 - sc.Link.overhead()
-						if fec {
+						// FEC-framed packets also reach sessions that have no FEC configured
+						// (they create their decoder on demand)
+						linkFEC := fec
+						fec := fec || r.chance(0.3)
+						if linkFEC {
 							maxLen += 8 // the FEC header is part of the payload built here
 						}
 						var dg []byte
@@ -675,11 +679,11 @@ func runC05RealUDP(rec *vrec, desc map[string]any, rng *vrng) {
 			case 0:
 				dg = r.bytes(r.intn(1473))
 			case 1:
-				dg = sl.seal(r, hostilePayload(r, nil, conv, d > 0, false, maxLen))
+				dg = sl.seal(r, hostilePayload(r, nil, conv, d > 0 || r.chance(0.3), false, maxLen))
 			default:
 				// passes the gate, wrong conversation from a new address: may create
 				// (bounded) sessions at the listener
-				dg = sl.seal(r, hostilePayload(r, nil, conv, d > 0, false, maxLen))
+				dg = sl.seal(r, hostilePayload(r, nil, conv, d > 0 || r.chance(0.3), false, maxLen))
 			}
 			if len(dg) > 1472 {
 				dg = dg[:1472]
